@@ -739,6 +739,7 @@ theorem orderClause_fail {st : Stmt} {kw : List (Str × Arg)} {e : Fail} (h : or
       | null => simp at h
       | int i => simp at h; exact ⟨h.symm, _, rfl, by simp, by simp⟩
       | text s => simp at h
+      | blob b => simp at h; exact ⟨h.symm, _, rfl, by simp, by simp⟩
     | list vs => simp at h; exact ⟨h.symm, _, rfl, by simp, by simp⟩
     | set vs => simp at h; exact ⟨h.symm, _, rfl, by simp, by simp⟩
 
